@@ -527,12 +527,14 @@ def oracle(c):
                 return (f"log_{w} read via {r['how']} has the wrong shape: {fmt(got)} "
                         f"(expected {'a scalar' if exp[0] == 'S' else 'the user node array'} {exp[1]})")
             g = _num(got)
+            # a user node's own value can be far larger than the log-densities: float rounding scales with it
+            tol_w = tol if w not in ex["user"] else tol + EPS_O[f32] * (abs(exp[1]) if exp[0] == "S" else max(abs(t) for t in exp[1]))
             if exp[0] == "S":
-                if abs(g - exp[1]) > tol:
+                if abs(g - exp[1]) > tol_w:
                     return (f"log_{w} read via {r['how']} = {g}, but the {'user node' if w in ex['user'] else 'sum of the log-densities'} "
                             f"is {exp[1]} (per node: {ex['nodes']})")
             else:
-                if len(g) != len(exp[1]) or any(abs(a - b) > tol for a, b in zip(g, exp[1])):
+                if len(g) != len(exp[1]) or any(abs(a - b) > tol_w for a, b in zip(g, exp[1])):
                     return f"user-supplied log_{w} node not forwarded unchanged via {r['how']}: {g} vs {exp[1]}"
     # (2) the distribution nodes of the model are the program's, each holding its log-density
     real = {n["name"]: n for n in o["nodes"] if n["kind"] != "KNoDist"}
